@@ -141,7 +141,13 @@ TraceNext ==
 \* property invariants, evaluated by TLC in every state of every real trace
 InvC01 == hist.q => C01_Excused
 InvC01Plain == hist.q => C01_Plain
+InvC02 == hist.q => C02_Excused
 InvC08 == C08_Mirror
+\* action properties on the real trace
+ActC02 == [][C02_ContentImmutable \/ R.op = "Reset"]_tvars
+ObsSame(c) == ObsOf(c)' = ObsOf(c)
+\* (bound variables are rigid: priming ObsOf(R.c) would read the *next* trace line)
+ActC07 == [][\A c \in Clients : (R.op = "Deliver" /\ R.c = c /\ R.e \in DOMAIN ev /\ Handled(c, R.e)) => ObsSame(c)]_tvars
 InvC20 == C20_Bounded
 InvSecrets == SecretsMatch
 
